@@ -110,13 +110,22 @@ def run(chk):
     c, b, t, mu0, muf = (T.var(x) for x in ("c", "b", "t", "mu0", "muf"))
     fn = "eko.matchings:Atlas.path"
     npaths = 0
-    for ninf in range(4):  # number of infinite walls (a suffix of c,b,t)
+    # wall layouts: (A) ordered 0 <= c <= b <= t with an infinite suffix (the physical case, includes the default-nf clause);
+    #               (B) "any matching scales": no ordering assumed at all, every subset of {c,b,t} infinite, explicit target nf
+    layouts = []
+    for ninf in range(4):
         fin = [c, b, t][: 3 - ninf]
-        walls = fin + [INF] * ninf
-        req = [mu0 > 0, muf > 0] + [w >= 0 for w in fin] + [x <= y for x, y in zip(fin, fin[1:])]
+        layouts.append((f"inf={ninf}", fin + [INF] * ninf, fin, [x <= y for x, y in zip(fin, fin[1:])], (3, 4, 5, 6, None)))
+    import itertools as _it
+    for mask in _it.product((False, True), repeat=3):
+        ws = [INF if m else v for m, v in zip(mask, (c, b, t))]
+        fin = [v for m, v in zip(mask, (c, b, t)) if not m]
+        layouts.append(("unordered,inf=" + "".join("1" if m else "0" for m in mask), ws, fin, [], (3, 4, 5, 6)))
+    for lname, walls, fin, order_req, nff_list in layouts:
+        req = [mu0 > 0, muf > 0] + [w >= 0 for w in fin] + order_req
         for nf0 in (3, 4, 5, 6):
-            for nff in (3, 4, 5, 6, None):
-                cfg = f"[inf={ninf},nf0={nf0},nff={nff}]"
+            for nff in nff_list:
+                cfg = f"[{lname},nf0={nf0},nff={nff}]"
                 rp = make_replay(nf0, nff)
                 W = [0] + walls + [INF]
 
